@@ -7,6 +7,7 @@ import (
 	"go/ast"
 	"go/token"
 	"go/types"
+	"regexp"
 	"strings"
 )
 
@@ -406,30 +407,7 @@ func checkC10(c *Ctx) {
 	if fd := ep.Funcs["convertProtovalidateError"]; fd == nil {
 		r.Unres("R10d", "convertProtovalidateError", "", "not emitted")
 	} else {
-		first, loopOK, joinOK := false, false, false
-		ast.Inspect(fd.Body, func(n ast.Node) bool {
-			switch x := n.(type) {
-			case *ast.AssignStmt:
-				if len(x.Lhs) == 1 && types.ExprString(x.Lhs[0]) == "fieldPath" {
-					rs := types.ExprString(x.Rhs[0])
-					if x.Tok == token.ASSIGN && rs == "elements[0].GetFieldName()" {
-						first = true
-					}
-					if x.Tok == token.ADD_ASSIGN && rs == `"." + elements[i].GetFieldName()` {
-						joinOK = true
-					}
-				}
-			case *ast.ForStmt:
-				if x.Init != nil && x.Cond != nil && x.Post != nil {
-					if types.ExprString(x.Init.(*ast.AssignStmt).Rhs[0]) == "1" && types.ExprString(x.Cond) == "i < len(elements)" {
-						if inc, ok := x.Post.(*ast.IncDecStmt); ok && inc.Tok == token.INC {
-							loopOK = true
-						}
-					}
-				}
-			}
-			return true
-		})
+		first, loopOK, joinOK := fieldPathJoin(fd.Body)
 		r.Check(first, "R10d", "field path starts with the first path element", ep.GenPos(fd.Pos()), "fieldPath is not initialised from elements[0].GetFieldName()")
 		r.Check(loopOK, "R10d", "field path loop covers elements 1..len-1", ep.GenPos(fd.Pos()), "the loop over the remaining path elements does not run from 1 to len(elements)-1")
 		r.Check(joinOK, "R10d", "path elements are joined with '.'", ep.GenPos(fd.Pos()), "path elements are not appended as \".\" + name")
@@ -645,13 +623,27 @@ func checkClientErrorMapping(c *Ctx) {
 		}
 	}
 	txt := strings.Join(lines, "\n")
-	r.Check(strings.Contains(txt, "resp.status === 400") && strings.Contains(txt, "parsed.violations") && strings.Contains(txt, "new ValidationError(parsed.violations)"),
+	// the emitted locals may have any name: the response parameter is read off the signature, the parsed body off
+	// the ValidationError construction
+	rv := "resp"
+	if m := regexp.MustCompile(`handleError\((\w+): Response\)`).FindStringSubmatch(txt); m != nil {
+		rv = m[1]
+	}
+	pv := "parsed"
+	if m := regexp.MustCompile(`new ValidationError\((\w+)\.violations\)`).FindStringSubmatch(txt); m != nil {
+		pv = m[1]
+	}
+	r.Check(strings.Contains(txt, rv+".status === 400") && strings.Contains(txt, pv+".violations") && strings.Contains(txt, "new ValidationError("+pv+".violations)"),
 		"R10e", "ts-client handleError: 400 with violations becomes ValidationError", "", "the TS client's 400/violations mapping changed")
-	r.Check(strings.Contains(txt, "throw new ApiError(resp.status,") && strings.Contains(txt, ", body)"), "R10e", "ts-client handleError: other failures throw ApiError(status, …, body)", "", "the TS client's fallback error does not carry status and body")
+	bodyVar := ""
+	if m := regexp.MustCompile(`const (\w+) = await ` + regexp.QuoteMeta(rv) + `\.text\(\)`).FindStringSubmatch(txt); m != nil {
+		bodyVar = m[1]
+	}
+	r.Check(bodyVar != "" && regexp.MustCompile(`throw new ApiError\(`+regexp.QuoteMeta(rv)+`\.status,.*, `+regexp.QuoteMeta(bodyVar)+`\)`).MatchString(txt), "R10e", "ts-client handleError: other failures throw ApiError(status, …, body)", "", "the TS client's fallback error does not carry status and body")
 	// a fetch body can be consumed once: handleError reads it with exactly one of resp.text() / resp.json() / …
 	nReads := 0
-	for _, m := range []string{"resp.text()", "resp.json()", "resp.arrayBuffer()", "resp.blob()", "resp.formData()"} {
-		nReads += strings.Count(txt, m)
+	for _, m := range []string{".text()", ".json()", ".arrayBuffer()", ".blob()", ".formData()"} {
+		nReads += strings.Count(txt, rv+m)
 	}
 	r.Check(nReads == 1, "R10e", "ts-client handleError reads the response body exactly once", "",
 		fmt.Sprintf("the emitted handleError consumes the response body %d times: the second read of a fetch body rejects with `TypeError: Body is unusable`, so a 400 whose body is not a violations object (a hook's own error, plain text) surfaces as a TypeError instead of ApiError(status, …, body)", nReads))
@@ -785,4 +777,96 @@ func statusAtLeast400(e ast.Expr) bool {
 		return y == "399"
 	}
 	return false
+}
+
+// fieldPathJoin reads the emitted violation-path code: the path variable is initialised from element 0's
+// name; a loop visits every remaining element (index loop from 1 to len, or a range over elems[1:]); each
+// iteration appends "." + that element's name. Variable names are free.
+func fieldPathJoin(body *ast.BlockStmt) (first, loopOK, joinOK bool) {
+	pathVar, elems := "", ""
+	nameOf := func(e ast.Expr) (recv ast.Expr, ok bool) { // X.GetFieldName()
+		call, ok1 := ast.Unparen(e).(*ast.CallExpr)
+		if !ok1 || len(call.Args) != 0 {
+			return nil, false
+		}
+		sel, ok2 := call.Fun.(*ast.SelectorExpr)
+		if !ok2 || sel.Sel.Name != "GetFieldName" {
+			return nil, false
+		}
+		return sel.X, true
+	}
+	ast.Inspect(body, func(n ast.Node) bool {
+		as, ok := n.(*ast.AssignStmt)
+		if !ok || len(as.Lhs) != 1 || len(as.Rhs) != 1 || as.Tok != token.ASSIGN || pathVar != "" {
+			return true
+		}
+		if x, ok := nameOf(as.Rhs[0]); ok {
+			if ix, ok := x.(*ast.IndexExpr); ok && types.ExprString(ix.Index) == "0" {
+				pathVar, elems = types.ExprString(as.Lhs[0]), types.ExprString(ix.X)
+				first = true
+			}
+		}
+		return true
+	})
+	if !first {
+		return
+	}
+	appendOf := func(loopBody *ast.BlockStmt, elem string) bool {
+		ok := false
+		for _, st := range loopBody.List {
+			as, isAs := st.(*ast.AssignStmt)
+			if !isAs || len(as.Lhs) != 1 || types.ExprString(as.Lhs[0]) != pathVar {
+				continue
+			}
+			var rhs ast.Expr
+			switch as.Tok {
+			case token.ADD_ASSIGN:
+				rhs = as.Rhs[0]
+			case token.ASSIGN: // p = p + "." + name
+				if be, isBin := as.Rhs[0].(*ast.BinaryExpr); isBin && be.Op == token.ADD {
+					if inner, isBin2 := be.X.(*ast.BinaryExpr); isBin2 && inner.Op == token.ADD && types.ExprString(inner.X) == pathVar {
+						rhs = &ast.BinaryExpr{X: inner.Y, Op: token.ADD, Y: be.Y}
+					}
+				}
+			}
+			be, isBin := rhs.(*ast.BinaryExpr)
+			if !isBin || be.Op != token.ADD || types.ExprString(be.X) != `"."` {
+				continue
+			}
+			if x, isName := nameOf(be.Y); isName && types.ExprString(x) == elem {
+				ok = true
+			}
+		}
+		return ok
+	}
+	ast.Inspect(body, func(n ast.Node) bool {
+		switch x := n.(type) {
+		case *ast.ForStmt:
+			init, ok1 := x.Init.(*ast.AssignStmt)
+			cond, ok2 := x.Cond.(*ast.BinaryExpr)
+			inc, ok3 := x.Post.(*ast.IncDecStmt)
+			if !ok1 || !ok2 || !ok3 || len(init.Lhs) != 1 || len(init.Rhs) != 1 {
+				return true
+			}
+			iv := types.ExprString(init.Lhs[0])
+			if types.ExprString(init.Rhs[0]) == "1" && cond.Op == token.LSS && types.ExprString(cond.X) == iv &&
+				types.ExprString(cond.Y) == "len("+elems+")" && inc.Tok == token.INC && types.ExprString(inc.X) == iv {
+				loopOK = true
+				if appendOf(x.Body, elems+"["+iv+"]") {
+					joinOK = true
+				}
+			}
+		case *ast.RangeStmt:
+			sl, ok := ast.Unparen(x.X).(*ast.SliceExpr)
+			if !ok || types.ExprString(sl.X) != elems || sl.Low == nil || types.ExprString(sl.Low) != "1" || sl.High != nil {
+				return true
+			}
+			loopOK = true
+			if x.Value != nil && appendOf(x.Body, types.ExprString(x.Value)) {
+				joinOK = true
+			}
+		}
+		return true
+	})
+	return
 }
